@@ -89,10 +89,19 @@ func hideTypes(sd protoreflect.ServiceDescriptor, requests bool) map[protoreflec
 // descriptors are re-parsed with extension types taken from that private registry, so that custom options such as
 // google.api.http arrive as dynamic messages rather than as generated Go types.
 func privateFiles(file protoreflect.FileDescriptor, dynamicOptions bool) (*protoregistry.Files, protoreflect.FileDescriptor, error) {
+	return privateFilesRenamed(file, dynamicOptions, nil)
+}
+
+// privateFilesRenamed: as privateFiles; with rename, every file is registered under rename(path) and imports name the new
+// paths (a vendored copy of the same files: where a file lives is not part of what it declares).
+func privateFilesRenamed(file protoreflect.FileDescriptor, dynamicOptions bool, rename func(string) string) (*protoregistry.Files, protoreflect.FileDescriptor, error) {
+	if rename == nil {
+		rename = func(p string) string { return p }
+	}
 	files := &protoregistry.Files{}
 	var build func(fd protoreflect.FileDescriptor) (protoreflect.FileDescriptor, error)
 	build = func(fd protoreflect.FileDescriptor) (protoreflect.FileDescriptor, error) {
-		if got, err := files.FindFileByPath(fd.Path()); err == nil {
+		if got, err := files.FindFileByPath(rename(fd.Path())); err == nil {
 			return got, nil
 		}
 		imps := fd.Imports()
@@ -102,6 +111,10 @@ func privateFiles(file protoreflect.FileDescriptor, dynamicOptions bool) (*proto
 			}
 		}
 		fdp := protodesc.ToFileDescriptorProto(fd)
+		fdp.Name = proto.String(rename(fd.Path()))
+		for i, d := range fdp.Dependency {
+			fdp.Dependency[i] = rename(d)
+		}
 		if dynamicOptions {
 			raw, err := proto.Marshal(fdp)
 			if err != nil {
@@ -138,6 +151,19 @@ func alternateSchemaImpl(via string, sch *Schema) (protoreflect.ServiceDescripto
 		return nf.Services().ByName(orig.Name()), nil, nil
 	case "private":
 		_, nf, err := privateFiles(orig.ParentFile(), true)
+		if err != nil {
+			return nil, nil, err
+		}
+		return nf.Services().ByName(orig.Name()), nil, nil
+	case "vendored":
+		// the same files loaded from a vendored tree: google/api/*.proto live under third_party/googleapis/, the options
+		// are the generated Go types (parsed with the global registry, as a descriptor set read with proto.Unmarshal is)
+		_, nf, err := privateFilesRenamed(orig.ParentFile(), false, func(p string) string {
+			if strings.HasPrefix(p, "google/api/") {
+				return "third_party/googleapis/" + p
+			}
+			return p
+		})
 		if err != nil {
 			return nil, nil, err
 		}
